@@ -25,15 +25,15 @@ def phase_covariance(r, r0, L0):
     r0 = float(r0)
     L0 = float(L0)
 
-    # Get rid of any zeros
-    r += 1e-40
-
     A = (L0 / r0) ** (5. / 3)
 
     B1 = (2 ** (-5. / 6)) * gamma(11. / 6) / (numpy.pi ** (8. / 3))
     B2 = ((24. / 5) * gamma(6. / 5)) ** (5. / 6)
 
-    C = (((2 * numpy.pi * r) / L0) ** (5. / 6)) * kv(5. / 6, (2 * numpy.pi * r) / L0)
+    # x^(5/6) K_5/6(x) is 0 * inf at zero seperation, where it tends to 2^(-1/6) Gamma(5/6)
+    x = (2 * numpy.pi * r) / L0
+    with numpy.errstate(invalid="ignore"):
+        C = numpy.where(x > 0, (x ** (5. / 6)) * kv(5. / 6, x), (2 ** (-1. / 6)) * gamma(5. / 6))
 
     cov = A * B1 * B2 * C
 
